@@ -22,6 +22,7 @@ def testHandlerX (n : Nat) (m : Bytes) : Nat × HRes :=
 
 structure St where
   c : Client := {}
+  stalled : Bool := false    -- write side under flow control (`fstep`)
   s : Srv Nat := { st := 0 }
 
 def showRes : ReadRes → String
@@ -43,6 +44,11 @@ def showObs : Obs → String
   | .wrote n => s!"wrote {n}"
   | .closed f => s!"closed {if f then 1 else 0}"
 
+def showFObs : FObs → String
+  | .base o => showObs o
+  | .ok => "ok"
+  | .wtimeout => "write-timeout"
+
 def sizesOf (s : String) : List Nat := ((parseHex s).getD []).map (·.toNat)
 
 def step (s : St) (line : String) : St × String :=
@@ -55,15 +61,17 @@ def step (s : St) (line : String) : St × String :=
   | ["read"] =>
     let (c, o) := cstep s.c .read
     ({ s with c := c }, showObs o)
+  | ["stall"] => ({ s with stalled := (fstep ⟨s.c, s.stalled⟩ .stall).1.stalled }, "ok")
+  | ["resume"] => ({ s with stalled := (fstep ⟨s.c, s.stalled⟩ .resume).1.stalled }, "ok")
   | ["write", h] => match parseHex h with
     | some b =>
-      let (c, o) := cstep s.c (.write b)
-      ({ s with c := c }, s!"{showObs o} {hexOrDash (c.out.drop s.c.out.length)}")
+      let (f, o) := fstep ⟨s.c, s.stalled⟩ (.base (.write b))
+      ({ s with c := f.c }, s!"{showFObs o} {hexOrDash (f.c.out.drop s.c.out.length)}")
     | none => (s, "bad-op")
   | ["request", h] => match parseHex h with
     | some b =>
-      let (c, o) := cstep s.c (.request b)
-      ({ s with c := c }, s!"{hexOrDash (c.out.drop s.c.out.length)} {showObs o}")
+      let (f, o) := fstep ⟨s.c, s.stalled⟩ (.base (.request b))
+      ({ s with c := f.c }, s!"{hexOrDash (f.c.out.drop s.c.out.length)} {showFObs o}")
     | none => (s, "bad-op")
   | ["close"] =>
     let (c, o) := cstep s.c .close
